@@ -589,3 +589,118 @@ func (m *Model) RunConfigSource(s *Sink, rule string) {
 		s.OK(rule, key, m.Pos(resp.Pos()), "%d reads, all rooted in the package-level configuration", n)
 	}
 }
+
+// RunDebugReaders: the debug flag decides what a failed response shows, nothing else: it is read in the root package
+// only. An evaluator, parser or lexer that looks at it makes what a template evaluates to (which conditions are
+// evaluated, which errors surface) depend on a process-wide setting.
+func (m *Model) RunDebugReaders(s *Sink, rule string) {
+	confT := m.namedType("config", "Config")
+	if confT == nil {
+		s.Undecided(rule, "config.Config", "-", "not found")
+		return
+	}
+	n, bad := 0, 0
+	for _, fn := range m.ModFns {
+		if fn.Blocks == nil || isUserPkg(fnPkgPath(fn)) {
+			continue
+		}
+		for _, b := range fn.Blocks {
+			for _, in := range b.Instrs {
+				fa, ok := in.(*ssa.FieldAddr)
+				if !ok {
+					continue
+				}
+				nt := ptrNamed(fa.X.Type())
+				if nt == nil || !types.Identical(nt, confT) || fieldName(fa.X.Type(), fa.Field) != "DebugMode" || fa.Referrers() == nil {
+					continue
+				}
+				isRead := false
+				for _, r := range *fa.Referrers() {
+					if ld, isLd := r.(*ssa.UnOp); isLd && ld.Op == token.MUL {
+						isRead = true
+					}
+				}
+				if !isRead {
+					continue
+				}
+				n++
+				if sp := shortPkg(fnPkgPath(fn)); sp != "textwire" && sp != "config" {
+					bad++
+					s.Violation(rule, fnKey(fn)+"|reads the debug flag", m.InstrPos(fa), "%s reads Config.DebugMode: the flag is meant to decide what a failed response shows; read while lexing, parsing or evaluating it makes the result of a template (which conditions are evaluated, which faults surface) depend on a process-wide setting", fnKey(fn))
+				}
+			}
+		}
+	}
+	if bad == 0 {
+		s.OK(rule, "config.DebugMode|read in the root package only", "-", "%d reads, none in lexer, parser, evaluator or object", n)
+	}
+}
+
+// RunErrorPageData: the built-in error page names message, path, line and debugMode; an identifier that is not bound
+// makes the page itself fail ("identifier 'line' not found"), and Response then writes an empty body. Each of these
+// keys is stored into the page's data on every path (a store whose block dominates every return of its function) —
+// also for an error without a line or a path (a template that was not found has line 0).
+func (m *Model) RunErrorPageData(s *Sink, rule string) {
+	ep := m.PkgFuncOr("textwire", "errorPage", func(f *ssa.Function) bool { return readsGlobal(f, "defaultErrorPage") })
+	if ep == nil {
+		s.Undecided(rule, "textwire.errorPage|data", "-", "errorPage not found")
+		return
+	}
+	// functions that can build the data: errorPage, its private helpers, and what they call statically in package fail
+	fns := map[*ssa.Function]bool{}
+	for _, h := range m.helpersOf(ep) {
+		fns[h] = true
+		for _, b := range h.Blocks {
+			for _, in := range b.Instrs {
+				if c, ok := in.(*ssa.Call); ok && c.Call.StaticCallee() != nil && m.InModule(c.Call.StaticCallee()) && c.Call.StaticCallee().Blocks != nil {
+					if _, isMap := c.Type().Underlying().(*types.Map); isMap {
+						fns[c.Call.StaticCallee()] = true
+					}
+				}
+			}
+		}
+	}
+	always := map[string]bool{}
+	seen := map[string]string{}
+	for fn := range fns {
+		var rets []*ssa.BasicBlock
+		for _, b := range fn.Blocks {
+			if _, isRet := b.Instrs[len(b.Instrs)-1].(*ssa.Return); isRet {
+				rets = append(rets, b)
+			}
+		}
+		for _, b := range fn.Blocks {
+			for _, in := range b.Instrs {
+				mu, ok := in.(*ssa.MapUpdate)
+				if !ok {
+					continue
+				}
+				k, isK := constOfValue(mu.Key)
+				if !isK {
+					continue
+				}
+				seen[k] = m.InstrPos(mu)
+				dom := len(rets) > 0
+				for _, r := range rets {
+					if !b.Dominates(r) {
+						dom = false
+					}
+				}
+				if dom {
+					always[k] = true
+				}
+			}
+		}
+	}
+	for _, k := range []string{"message", "path", "line", "debugMode"} {
+		key := "textwire.errorPage|the page's variable " + k + " is always bound"
+		switch {
+		case always[k]:
+			s.OK(rule, key, seen[k], "stored on every path")
+		case seen[k] != "":
+			s.Violation(rule, key, seen[k], "the data of the built-in error page gets %q only on some paths (the store at %s is conditional): for an error without it — a template that was not found has line 0 — the page's own identifier is unbound, the page fails with \"identifier not found\", and the response body is empty instead of the debug page", k, seen[k])
+		default:
+			s.Note(rule, key, "-", "no store of this key found (the page may not use it)")
+		}
+	}
+}
